@@ -93,7 +93,7 @@ def in_child(fn: Callable[[Any], Any], arg: Any, wall_cap: float = CHILD_WALL_CA
 def _child_run(machine, verif_seed: int, prop: str, index: int, cfg: Dict):
     def body(_):
         rng = kernel.run_rng(verif_seed, prop, index)
-        scenario = machine.generate(rng, cfg)
+        scenario = machine.generate(rng, dict(cfg, _index=index))
         return machine.execute(scenario)
 
     return body
@@ -249,4 +249,4 @@ def execute_scenario(machine, scenario: Dict, wall_cap: float = CHILD_WALL_CAP) 
 
 
 def generate_scenario(machine, verif_seed: int, prop: str, index: int, cfg: Dict) -> Dict:
-    return machine.generate(kernel.run_rng(verif_seed, prop, index), cfg)
+    return machine.generate(kernel.run_rng(verif_seed, prop, index), dict(cfg, _index=index))
